@@ -17,7 +17,7 @@ VERIF = os.path.dirname(os.path.dirname(os.path.abspath(__file__)))
 def main():
     src = sys.argv[1]
     rows = []
-    for res in sorted(glob.glob(os.path.join(src, "C??-M?.json")) + glob.glob(os.path.join(src, "R2-C??-M?.json")) + glob.glob(os.path.join(src, "R3-C??-M?.json")) + glob.glob(os.path.join(src, "R4-?-M?.json")) + glob.glob(os.path.join(src, "R5-?-M?.json")) + glob.glob(os.path.join(src, "R6-?-M?.json")) + glob.glob(os.path.join(src, "R7-?-M?.json"))):
+    for res in sorted(glob.glob(os.path.join(src, "C??-M?.json")) + glob.glob(os.path.join(src, "R2-C??-M?.json")) + glob.glob(os.path.join(src, "R3-C??-M?.json")) + glob.glob(os.path.join(src, "R4-?-M?.json")) + glob.glob(os.path.join(src, "R5-?-M?.json")) + glob.glob(os.path.join(src, "R6-?-M?.json")) + glob.glob(os.path.join(src, "R7-?-M?.json")) + glob.glob(os.path.join(src, "R8-?-M?.json"))):
         name = os.path.basename(res)[:-5]
         wt, k = name.rsplit("-M", 1)
         prop = wt[-3:]
@@ -56,6 +56,10 @@ def main():
         if name.startswith("R7-"):
             pairs = {"A": ("C01", "C13"), "B": ("C02", "C19"), "C": ("C03", "C12"), "D": ("C04", "C10"), "E": ("C05", "C18"),
                      "F": ("C06", "C15"), "G": ("C07", "C20"), "H": ("C08", "C17"), "I": ("C09", "C14"), "J": ("C11", "C16")}
+            prop = pairs[wt[-1]][0 if int(k) <= 2 else 1]
+        if name.startswith("R8-"):
+            pairs = {"A": ("C01", "C09"), "B": ("C02", "C12"), "C": ("C03", "C15"), "D": ("C04", "C18"), "E": ("C05", "C16"),
+                     "F": ("C06", "C19"), "G": ("C07", "C13"), "H": ("C08", "C20"), "I": ("C10", "C11"), "J": ("C14", "C17")}
             prop = pairs[wt[-1]][0 if int(k) <= 2 else 1]
         meta_path = os.path.join(out, "meta.json")
         old = json.load(open(meta_path)) if os.path.exists(meta_path) else {}
